@@ -14,6 +14,10 @@ CLAIMS = {
  "C06": ("proof", "Buffer::scroll_up/scroll_down are proved row-by-row (shift by min(n, height), blanks in the pen, rows outside untouched, scrollback prefix untouched, pushed rows appended in order); all region helpers, IL/DL, LF/NEL/RI pass the right range; every other function's frame keeps the active buffer or its scrollback; DECSTBM validity.", "5/C06"),
  "C07": ("proof", "Buffer::erase for all seven modes, insert, delete and the Terminal wrappers ED/EL/ECH/ICH/DCH/DECALN are proved cell-by-cell against extent predicates written from the statement, with frames for cursor, modes and other rows.", "5/C07"),
  "C08": ("proof", "Terminal::sgr is proved to be the left fold of apply_sgr over the operation list; Pen mutators/accessors are proved independent (disjoint non-zero masks); blank/printed cells carry exactly the pen (Cell/Line/Buffer clauses). SgrOps::next decoding is a Kani unit.", "5/C08"),
+ "C10": ("model_checking", "Verus proves Buffer::resize / logical_position / relative_position (arithmetic, geometry, cursor range, identity for an unchanged size) for all inputs against an assumed shape contract of reflow; the content half (logical text preserved, cursor stays on its character, text above the cursor's logical line unchanged) is decided by bounded Kani units on the real reflow / Reflow::next / Line::{extend, contract, trim} and on Buffer::resize end-to-end (<= 3 lines, widths <= 3). Bounded, stated as such.", "5/C10"),
+ "C12": ("proof", "Vt::feed's contract (parser step, then execute or nothing); non-interference lemma for every control function (the visible result does not depend on dirty flags, trim flag, scrollback content or limit); chunking theorem by induction over runs with arbitrary silent steps (changes(), gc()) in between. feed_str = fold of feed + changes + gc is a bounded Kani unit. One listed finding (F2: feed() never trims, so lines() differs on the alternate screen).", "5/C12"),
+ "C13": ("proof", "trim_ok (trim pending or scrollback within the hard limit) is part of the proved invariant and re-established by every mutator; hard == soft + soft/10 is a checked closure contract; the alternate buffer carries limit 0; lemma_c13_bound gives the lines() bound once trim_needed is false. Buffer::gc / trim_scrollback / Terminal::gc (drain exactness, also when the iterator is dropped unconsumed) are bounded Kani units.", "5/C13"),
+ "C14": ("proof", "Scrollback theorem: for any session without RIS/resize, lines handed out so far ++ limited terminal's primary lines == unlimited terminal's primary lines, by induction from per-function growth lemmas (lines only grow at the scrollback/view boundary, identically in both runs) and the gc relation; gc_rel on the real Terminal::gc is a bounded Kani unit. The TextCollector corollary (String code) is not claimed.", "5/C14"),
  "C15": ("proof", "Every Terminal method and execute carries dirty_sound: a view row whose cells differ from the start of the call is flagged and no flag is lost within a call; changes() returns exactly the flagged indices, sorted, and clears them (to_vec is a Kani unit).", "5/C15"),
  "C16": ("proof", "Frame clauses prove that while the alternate screen is active no method other than the switches/hard reset touches other_buffer or the primary's saved context; the switches swap exactly, the fresh alternate buffer is blank in the current pen, reflow with unchanged size is the identity.", "5/C16"),
  "C17": ("proof", "save_cursor/restore_cursor store and re-establish exactly (col clamped, row, pen, origin, auto-wrap); saved_ctx is in the frame of every other method except soft/hard reset, the switches (swap) and reflow (clamp into the screen).", "5/C17"),
@@ -24,10 +28,6 @@ CLAIMS = {
 NA = {
  "C11": "dump() builds its output with format!/String pushes/iterator chains: no Verus contract can state the content of a formatted string and the property quantifies over all continuations of an interpreter run on that string; Kani cannot push a formatted dump through parser+terminal symbolically within any budget. Only panic-freedom of the arithmetic reachable there is discussed under C01.",
  "C09": "whole-history inductive invariant over print/CR/LF plus String-level text()/TextUnwrapper code outside Verus's subset; the per-step mechanism (wrap marks, scrollback push) is proved under C04/C06 but the protocol-level lemma was not closed, so the property is not claimed.",
- "C10": "pending in this revision: Buffer::resize's arithmetic is verified against an assumed reflow contract; the content half needs the bounded Kani reflow unit.",
- "C12": "pending in this revision: chunking independence lemma over the per-call contracts.",
- "C13": "pending in this revision: needs the Kani unit for Buffer::gc/trim_scrollback (Vec::drain + impl Iterator outside Verus).",
- "C14": "pending in this revision: simulation lemma limited vs unlimited scrollback.",
 }
 m = {
  "version": 1,
@@ -36,7 +36,7 @@ m = {
            "baseline_off_cmd": "cd /repo && cargo test --workspace --no-fail-fast --offline", "source_commits": [], "add_only": True},
  "engines": [
    {"name": "verus", "path": "/verif/verus_run.py", "serves_properties": sorted(CLAIMS), "kind_free_text": "Verus 0.2026.09.13 on the whole real crate, contracts spliced in place by weave.py"},
-   {"name": "kani", "path": "/verif/kani_run.py", "serves_properties": ["C02", "C03", "C08", "C15", "C18", "C19", "C20"], "kind_free_text": "Kani 0.68 harnesses appended to the real source files for functions outside Verus's Rust subset"}],
+   {"name": "kani", "path": "/verif/kani_run.py", "serves_properties": ["C01", "C02", "C03", "C06", "C08", "C10", "C12", "C13", "C14", "C15", "C16", "C18", "C19", "C20"], "kind_free_text": "Kani 0.68 harnesses appended to the real source files for functions outside Verus's Rust subset"}],
  "checks": [], "not_applicable": [],
  "notes": "Contract-based deductive verification of the real code. exit 2 = undecided (lost anchor, front-end rejection, resource limit), never an alarm. known_findings.txt lists repaired defects (fixed:) and recorded findings (finding:).",
 }
